@@ -124,6 +124,15 @@ def c_range_table(ctx):
                 src = var(r)
             if src in role_of_var and role_of_var[src] != "mask":
                 role_of_var[name] = role_of_var[src]
+    # locals assigned exactly once (flags computed from the mask, ...)
+    _defs = {}
+    for x in fn_ast.walk():
+        if x.kind == "VarDecl" and x.ch:
+            _defs.setdefault(x.name, []).append(x.ch[-1])
+        elif x.kind == "BinaryOperator" and x.op == "=" \
+                and var(x.ch[0]) is not None:
+            _defs.setdefault(var(x.ch[0]), []).append(x.ch[1])
+    local_defs = {k: v[0] for k, v in _defs.items() if len(v) == 1}
     if set(role_of_var.values()) != {"value", "low", "high", "mask"}:
         raise AnalysisError(f"in_float_range: could not resolve low/high/mask "
                             f"from the descriptor slots ({role_of_var})")
@@ -157,6 +166,10 @@ def c_range_table(ctx):
 
         def ev(e):
             e = strip(e)
+            if e.kind == "DeclRefExpr" and e.ref in local_defs \
+                    and e.ref not in role_of_var:
+                # a flag local: `int exclude_low = (mask & 1) != 0;`
+                return ev(local_defs[e.ref])
             if e.kind == "ConditionalOperator" and len(e.ch) == 3:
                 c = ev(e.ch[0])
                 if c is None or isinstance(c, tuple):
@@ -229,8 +242,16 @@ def _rel(a, b):
 def py_range_table(ctx, method):
     repo = get_pyrepo(ctx)
     mod = repo.module(TT)
-    fn = repo.func(TT, f"BaseRange.{method}")
+    fn = repo.inlined(TT, f"BaseRange.{method}")
     g = build_cfg(fn, f"{TT}:BaseRange.{method}")
+    # flags kept in locals (`above_low = ...; if above_low:`)
+    _ld = {}
+    for a_ in ast.walk(fn):
+        if isinstance(a_, ast.Assign) and len(a_.targets) == 1 \
+                and isinstance(a_.targets[0], ast.Name):
+            _ld.setdefault(a_.targets[0].id, []).append(a_.value)
+    flag_defs = {k: v[0] for k, v in _ld.items() if len(v) == 1 and isinstance(
+        v[0], (ast.BoolOp, ast.Compare, ast.UnaryOp))}
     params = [a.arg for a in fn.args.args]
 
     def outcome(node):
@@ -263,7 +284,23 @@ def py_range_table(ctx, method):
 
     def interp_for(val):
         def interp(node):
-            e = node.ast
+            return ev(node.ast)
+
+        def ev(e):
+            if isinstance(e, ast.Name) and e.id in flag_defs:
+                return ev(flag_defs[e.id])
+            if isinstance(e, ast.UnaryOp) and isinstance(e.op, ast.Not):
+                v = ev(e.operand)
+                return v if v is None or isinstance(v, tuple) else not v
+            if isinstance(e, ast.BoolOp):
+                is_and = isinstance(e.op, ast.And)
+                for x in e.values:
+                    v = ev(x)
+                    if v is None or isinstance(v, tuple):
+                        return v
+                    if bool(v) != is_and:
+                        return bool(v)
+                return is_and
             if isinstance(e, (ast.Name, ast.Attribute)):
                 r = role(e)
                 if r in ("ex_low", "ex_high"):
